@@ -3,6 +3,7 @@ pub mod c01;
 pub mod c02;
 pub mod c03;
 pub mod c04;
+pub mod c05;
 pub mod c06;
 pub mod c11;
 pub mod c12;
@@ -18,6 +19,7 @@ pub fn run(prop: &str, ctx: &mut Ctx) -> bool {
         "C02" => c02::run(ctx),
         "C03" => c03::run(ctx),
         "C04" => c04::run(ctx),
+        "C05" => c05::run(ctx),
         "C06" => c06::run(ctx),
         "C11" => c11::run(ctx),
         "C12" => c12::run(ctx),
